@@ -27,7 +27,8 @@ CTRL = "\x08\x0b\x0c\r"
 
 
 def text_str(max_size=14):
-    alpha = st.one_of(st.sampled_from("abcxyz012"), st.sampled_from("abcxyz012"), st.just(" "), st.just(" "), st.sampled_from(["\n", "\t"]), st.sampled_from(GC.WIDE[:6]), st.sampled_from(GC.ZERO[:3]), st.sampled_from(CTRL))
+    alpha = st.one_of(st.sampled_from("abcxyz012"), st.sampled_from("abcxyz012"), st.just(" "), st.just(" "), st.sampled_from(["\n", "\t"]), st.sampled_from(GC.WIDE[:6]), st.sampled_from(GC.ZERO[:3]), st.sampled_from(CTRL),
+                       st.sampled_from("\x7f\x85\x9f\u00ad"))  # DEL, C1 controls, soft hyphen: zero cells by the width table, not removed by Text
     short = st.text(alpha, max_size=max_size)
     # now and then a long text whose length sits on a multiple of 64 (cell measurement treats long strings differently)
     long_ = st.builds(lambda unit, n: (unit * 200)[:n], st.sampled_from(["ab", "x", "a " + GC.WIDE[0]]), st.sampled_from([64, 128, 129, 192]))
